@@ -50,6 +50,8 @@ type runner struct {
 	batch   int
 	maxDis  int
 	start   time.Time
+
+	recordLast string
 }
 
 func newRunner(prop, tier string, seed uint64) *runner {
@@ -61,6 +63,10 @@ func (rn *runner) add(tc *testCase) { rn.addWith(tc, nil) }
 
 // addWith runs `pre` before every op (used to set per-op harness-side options).
 func (rn *runner) addWith(tc *testCase, pre func()) {
+	if rn.recordLast != "" {
+		// a fatal runtime error (stack overflow, out of memory) kills the process: leave the case behind as replay
+		os.WriteFile(rn.recordLast, []byte(strings.Join(tc.ops, "\n")+"\n"), 0o644)
+	}
 	st := newStore()
 	tc.impl = make([]string, len(tc.ops))
 	for i, op := range tc.ops {
